@@ -148,8 +148,22 @@ func (g *Gen) verifyFunc(fc *FuncContract) (vc *VC) {
 		}
 		g.vc.assume("", v)
 	}
+	g.panicPre = ""
+	if fc.NoPanic && len(fc.PanicUnless) > 0 {
+		var ps []string
+		for _, pu := range fc.PanicUnless {
+			v, err := g.evalBool(pu.Expr, env)
+			if err != nil {
+				g.contractError(pu, err)
+				continue
+			}
+			ps = append(ps, v)
+		}
+		g.panicPre = g.vc.define("panicpre", "Bool", sAnd(ps...))
+	}
 	fr.old = st.Clone()
 	res, stOut, exitG := g.execFunc(fr, st, "true")
+	g.panicPre = ""
 
 	// ensures
 	rvars := map[string]Val{}
